@@ -67,6 +67,7 @@ type Config struct {
 	StarveTag    int64 // tasks spawned with this tag are starved ...
 	StarveBudget int   // ... for this many decision points in total
 	StepCap      int64
+	FairBound    int64 // an enabled task is never passed over at more than this many decision points in a row (bounded fairness)
 	StallSteps   int64 // eventless steps after which a waited-on closed gate is opened
 	ShuffleMaps  bool
 	PProb        int // ‰ of P-sites enabled (informational; mask is in PMask)
@@ -109,6 +110,7 @@ type taskState struct {
 	scheds   int64 // how many times the task was resumed
 	reply    int64
 	spawnIdx int32
+	passed   int64 // decision points at which the task was enabled but not chosen, since it last ran
 }
 
 type objState struct {
@@ -141,6 +143,7 @@ type Stats struct {
 	WgBlocks     int64
 	MaxLive      int
 	StarvedSteps int64
+	ForcedFair   int64 // decisions taken by the bounded-fairness rule
 }
 
 // Run is one simulated execution.
@@ -269,6 +272,9 @@ func NewRun(cfg Config, sched *Source) *Run {
 	}
 	if r.Cfg.StallSteps == 0 {
 		r.Cfg.StallSteps = 300
+	}
+	if r.Cfg.FairBound == 0 {
+		r.Cfg.FairBound = 1500
 	}
 	r.starveLeft = cfg.StarveBudget
 	return r
@@ -531,7 +537,7 @@ func (r *Run) step(m msg) bool {
 	}
 	// stall rule: a closed gate somebody waits on is opened after StallSteps eventless steps
 	if r.St.GateWaits > 0 && r.St.Steps-r.lastProg >= r.Cfg.StallSteps {
-		if g, ok := r.oldestGate(); ok {
+		if g, ok := r.oldestGate(true); ok {
 			r.gateOpen[g] = true
 			r.St.GateStall++
 			r.lastProg = r.St.Steps
@@ -543,7 +549,7 @@ func (r *Run) step(m msg) bool {
 			return r.finish(EndOK, "")
 		}
 		// quiescence: nobody can move; open the oldest closed gate somebody waits on
-		g, ok := r.oldestGate()
+		g, ok := r.oldestGate(false)
 		if !ok {
 			return r.finish(EndDeadlock, r.describeBlocked())
 		}
@@ -555,11 +561,18 @@ func (r *Run) step(m msg) bool {
 	return false
 }
 
-func (r *Run) oldestGate() (int64, bool) {
+// HoldGateBit marks gates that only their controller (or true quiescence) may
+// open: the stall rule leaves them alone.
+const HoldGateBit = int64(1) << 60
+
+func (r *Run) oldestGate(stall bool) (int64, bool) {
 	best, bestSince, ok := int64(0), int64(0), false
 	for i := range r.tasks {
 		ts := &r.tasks[i]
 		if ts.wait == waitGate && !r.gateOpen[ts.obj] {
+			if stall && ts.obj&HoldGateBit != 0 {
+				continue
+			}
 			if !ok || ts.since < bestSince {
 				best, bestSince, ok = ts.obj, ts.since, true
 			}
@@ -630,6 +643,20 @@ func (r *Run) pick() (next int32, live int) {
 	}
 	r.St.Decisions++
 	var c int32
+	// bounded fairness: whatever the choice list says, nobody who can run is passed
+	// over for ever (the Go scheduler is preemptive; a verdict "hang" must not be an
+	// artefact of an unfair schedule, in particular not of a minimised all-zero one)
+	forced := int32(-1)
+	for i := 0; i < n; i++ {
+		if t := at(i); t != r.cur && r.tasks[t].passed >= r.Cfg.FairBound && (forced < 0 || r.tasks[t].passed > r.tasks[forced].passed) {
+			forced = t
+		}
+	}
+	if forced >= 0 {
+		r.St.ForcedFair++
+		c = forced
+		goto chosen
+	}
 	switch r.Cfg.Strategy {
 	case StratUniform:
 		c = at(r.Sched.Intn(n))
@@ -653,6 +680,13 @@ func (r *Run) pick() (next int32, live int) {
 			}
 		}
 	}
+chosen:
+	for i := 0; i < n; i++ {
+		if t := at(i); t != c {
+			r.tasks[t].passed++
+		}
+	}
+	r.tasks[c].passed = 0
 	if c != r.cur {
 		r.St.Switches++
 	}
